@@ -150,6 +150,22 @@ def systematic():
         [task(par=True, views=[('A', M)]), task(views=[('B', M)], entry=[('C', M)]), task(par=True, views=[('C', M)], flt=('Not', ('Has', 'B'))), task(views=[('D', M)], entry=[('A', 'OptMut')])],
     ]
     scheds += four
+    # independent tasks exercising every view feature (C12: must share a stage)
+    O = 'OptRef'
+    indep = [
+        [task(views=[('A', Rf)], has_id=True), task(views=[('A', Rf)], has_id=True)],
+        [task(views=[('A', Rf)]), task(views=[('A', O)], has_id=True)],
+        [task(views=[('A', M)]), task(views=[('B', M)], has_id=True)],
+        [task(views=[('A', M)], entry=[('C', Rf)]), task(views=[('B', M)], entry=[('C', O)], has_id=True)],
+        [task(par=True, views=[('A', M)]), task(par=True, views=[('B', M)], has_id=True)],
+        [task(views=[('A', O)], entry=[('A', O)]), task(views=[('A', Rf)])],
+        [task(views=[('A', Rf)], entry=[('A', O)]), task(views=[('A', Rf)])],
+        [task(views=[('A', O)], entry=[('A', Rf)]), task(views=[('A', O)])],
+        [task(views=[('A', Rf)], entry=[('A', Rf)]), task(views=[('A', Rf)], res=[('RA', False)]), task(views=[('A', O)], res=[('RA', False)], has_id=True)],
+        [task(views=[('A', M)], res=[('RA', True)]), task(views=[('B', M)], res=[('RB', True)]), task(views=[('C', M)], res=[('RC', False)], has_id=True)],
+        [task(views=[('A', M)], flt=('Has', 'B')), task(views=[('C', 'OptMut')], flt=('Not', ('Has', 'B')), has_id=True), task(par=True, views=[('D', M), ('B', Rf)])],
+    ]
+    scheds += indep
     for s in scheds:
         for t in s:
             assert valid(t), t
